@@ -380,7 +380,8 @@ def run_deblend(S, T, ci):
 # ----------------------------------------------------------------------------
 # make_model_image : the rendered image is equal after shifting
 # ----------------------------------------------------------------------------
-MODEL_CFG = ['model_shape(11,9)', 'bbox_factor3', 'variable-shape-localbkg', 'oversample3']
+MODEL_CFG = ['model_shape(11,9)', 'bbox_factor3', 'variable-shape-localbkg', 'oversample3',
+             'half-integer-positions(5,7)', 'half-integer-positions-even(4,6)']
 
 
 def run_model_image(S, T, ci):
@@ -390,7 +391,15 @@ def run_model_image(S, T, ci):
     name = MODEL_CFG[ci]
     src = np.array(S['src'])
     half = {'model_shape(11,9)': 6.5, 'bbox_factor3': 3.0 * src[:, 3].max() + 1.5, 'variable-shape-localbkg': 8.5,
-            'oversample3': 5.5}[name]
+            'oversample3': 5.5, 'half-integer-positions(5,7)': 4.5, 'half-integer-positions-even(4,6)': 4.5}[name]
+    if name.startswith('half-integer'):
+        # positions snapped to the half-/quarter-pixel lattice (window rounding ties) with a stamp that
+        # truncates the model visibly: a window that moves by one pixel under an odd offset is visible
+        fx = np.array([0.5, 0.0, 0.5, 0.25, 0.5])[np.arange(len(src)) % 5]
+        fy = np.array([0.0, 0.5, 0.5, 0.5, 0.75])[np.arange(len(src)) % 5]
+        src = src.copy()
+        src[:, 1] = np.floor(src[:, 1]) + fx
+        src[:, 2] = np.floor(src[:, 2]) + fy
     # only sources whose whole stamp lies inside the original frame (footprint rule); decided in base coordinates
     keep = inside(S['shape'], src[:, 1], src[:, 2], half + 1.0)
     src = src[keep]
@@ -408,6 +417,10 @@ def run_model_image(S, T, ci):
     elif name == 'variable-shape-localbkg':
         tbl['model_shape'] = [(9 + 2 * (i % 3), 15 - 2 * (i % 3)) for i in range(len(tbl))]
         tbl['local_bkg'] = 0.5 + 0.25 * np.arange(len(tbl))
+    elif name == 'half-integer-positions(5,7)':
+        kw = {'model_shape': (5, 7)}
+    elif name == 'half-integer-positions-even(4,6)':
+        kw = {'model_shape': (4, 6)}
     else:
         kw = {'model_shape': (9, 9), 'discretize_method': 'oversample', 'discretize_oversample': 3}
     img = make_model_image(T.shape(S['shape']), Gaussian2D(), tbl, x_name='x_mean', y_name='y_mean', **kw)
